@@ -81,13 +81,18 @@ inductive CopyWay where
   | deep      -- `copy.deepcopy(mech)`, pickle round-trip: the generator is duplicated
   deriving DecidableEq, Repr
 
-/-- source of the `_rng` of an instance obtained by copying one whose `_rng` has source `r`.  A SystemRandom has no
-state (`getstate` raises NotImplementedError), so a deep copy of a mechanism holding one yields no instance at all;
-RandomState / Generator objects are duplicated with their class. -/
-def copySrc : CopyWay → RngSrc → RngSrc
-  | .shallow, r => r
-  | .deep, .osCsprng => .error
-  | .deep, r => r
+/-- source of the `_rng` of an instance obtained by copying a mechanism constructed with `random_state=s`.  A
+SystemRandom has no state (`getstate` raises NotImplementedError), so a deep copy of a mechanism that holds one — as
+its `_rng` or as its stored `random_state` attribute — yields no instance at all; RandomState / Generator objects are
+duplicated with their class; a shallow copy shares the generator object. -/
+def copySrc (w : CopyWay) (m : Mech) (s : Seed) : RngSrc :=
+  match w with
+  | .shallow => mechRng m s
+  | .deep =>
+    if s = .systemRandom then .error
+    else match mechRng m s with
+      | .osCsprng => .error
+      | r => r
 
 /-- tool / estimator preamble: `random_state = check_random_state(random_state)` -/
 def hop (s : Seed) : Seed := (crs s false).asSeed
